@@ -1,6 +1,7 @@
 import Proofs.C13
 import Proofs.TieLJ
 import Proofs.TieLJShape
+import Proofs.SrcC13
 #print axioms PV.Proofs.C13.powi2
 #print axioms PV.Proofs.C13.powi3
 #print axioms PV.Proofs.C13.powi6
@@ -31,3 +32,7 @@ import Proofs.TieLJShape
 #print axioms PV.Proofs.Tie.declared_translated_ljshape
 #print axioms PV.Proofs.Tie.ljshape_energy_tie
 #print axioms PV.Proofs.Tie.ljshape_radius_tie
+#print axioms PV.Proofs.Source.C13_source_uncut
+#print axioms PV.Proofs.Source.C13_source_cut_inside
+#print axioms PV.Proofs.Source.C13_source_cut_outside
+#print axioms PV.Proofs.Source.C13_source_molecule
